@@ -169,6 +169,9 @@ def run(ctx: Ctx):
             triple = (v.slice.lower, v.slice.upper, v.slice.step)
     if triple is None:
         raise AnalysisError("C13: cannot find the rank slice (islice / slice subscript) in get_samples_for_epoch")
+    from sa.inline import Inliner as _InlG
+    inl_g = _InlG(g.node, rdg)
+    triple = tuple(inl_g.expand(x) if x is not None else None for x in triple)  # named start / stop / step are looked through
     tnames = [u(x) if x is not None else None for x in triple]
     col.ob("G12", "S3", f"{where}::slice-triple", tnames == ["self._rank", "self.effective_total", "self._world_size"],
            f"rank slice is (start, stop, step) = {tnames}; expected (self._rank, self.effective_total, "
@@ -222,7 +225,20 @@ def run(ctx: Ctx):
            rel, init.line)
     # raise: a raise reached exactly when the remainder is non-zero
     node_r, pm_r, inl_r = _mode_view("raise")
-    raise_ok = any(isinstance(st, ast.Raise) and any(pol and _mentions_remainder(t, inl_r) for t, pol in guards_of(pm_r, st))
+    def _remainder_nonzero(t, pol, inl):
+        """Does guard (t, pol) say 'the remainder is not zero'? `r`, `r != 0`, `r > 0`, `not r == 0`, and their negations as
+        the complement of a guard clause (`if not r: return`)."""
+        while isinstance(t, ast.UnaryOp) and isinstance(t.op, ast.Not):
+            t, pol = t.operand, not pol
+        x = inl.expand(t)
+        if isinstance(x, ast.Compare) and len(x.ops) == 1 and isinstance(x.comparators[0], ast.Constant) and x.comparators[0].value == 0:
+            if isinstance(x.ops[0], ast.Eq):
+                pol = not pol
+            elif not isinstance(x.ops[0], (ast.NotEq, ast.Gt)):
+                return False
+            x = x.left
+        return pol and "%" in u(x)
+    raise_ok = any(isinstance(st, ast.Raise) and any(_remainder_nonzero(t, pol, inl_r) for t, pol in guards_of(pm_r, st))
                    for st in ast.walk(node_r))
     col.ob("G8", "S4", f"{where}::raise-branch", raise_ok,
            "under 'raise' an indivisible size does not raise", rel, init.line)
